@@ -16,4 +16,10 @@ for id in $(jq -r '.checks[].property_id' MANIFEST.json | tr 'A-Z' 'a-z'); do
   .bin/rewrite -repo /repo -out $GEN -shim $V/shim -pkgs "$PKGS" || exit 2
   go build -tags verif -overlay $GEN/overlay.json -o .bin/$id ./checks/$id || exit 2
 done
+# bind the fake etcd to the real one: exhaustive op-sequence replay against an embedded etcd
+go build -overlay $V/.gen/c04/overlay.json -o .bin/conformance ./engine/fakeetcd/conformance || exit 2
+.bin/conformance -depth 3 2>/dev/null | tail -1
+rc=${PIPESTATUS[0]}
+if [ $rc = 2 ]; then echo "fake etcd disagrees with embedded etcd"; exit 2; fi
+if [ $rc = 3 ]; then echo "WARNING: embedded etcd could not be started here; conformance replay skipped"; fi
 echo setup ok
